@@ -331,3 +331,118 @@ PLAN["C09"] = {
 }
 LEVEL_TEXT["C09"] = ("all interleavings with <= c preemptions (1-2) of a traversing/erasing iterator thread with 1-2 updaters for 17 container x reclaimer configurations, plus all "
                      "single-thread sequences of iterator steps interleaved with updates through the container; traversal results checked against the update history")
+
+# ------------------------------------------------------------------------------------------------- C10
+# vy.cpp op bits: 0 emplace, 1 erase, 2 try_get_value, 3 find, 4 get_or_emplace, 5 extract
+TITLES["C10"] = "vyukov_hash_map is a linearizable map, including lock-free reads and resizing"
+_vy_modes = ["tt_i1_hp", "tt_i2_hp", "tt_ic_hp", "tt_i1_ebr", "tt_i1_he", "tt_i1_qsbr", "tt_i1_nebr", "tt_i1_debra", "tt_i1_stamp", "tn_i1_hp", "tn_i2_ebr",
+             "st_s1_hp", "st_s2_hp", "st_s1_ebr", "sn_s1_hp", "tm_i1_hp", "tm_i2_ebr", "sm_s1_hp", "sm_s2_ebr"]
+_c10_quick = [run("vy", "map_" + t, c=0, opt={"T": 1, "m": 3, "keys": 5, "cap": 128, "prefill": 15, "ops": 0x3f}, weight=0.5) for t in ["tt_i1_hp", "tn_i1_hp", "st_s1_hp", "sn_s1_hp", "tm_i1_hp", "sm_s1_hp", "st_s2_hp", "tm_i2_ebr"]] + \
+    [run("vy", "map_" + t, c=0, opt={"T": 1, "m": 3, "keys": 6, "cap": 1, "prefill": 7, "ops": 0x33}, weight=0.5) for t in ["tt_i1_hp", "tn_i1_hp", "st_s1_hp", "sm_s1_hp"]] + \
+    [run("vy", "map_tt_i1_hp", c=1, opt={"keys": 2, "cap": 1, "ops": 0x7, "prefill": 1}), run("vy", "map_st_s1_hp", c=1, opt={"keys": 2, "cap": 128, "ops": 0x25, "prefill": 1}),
+     run("vy", "map_tm_i1_hp", c=1, opt={"keys": 2, "cap": 1, "ops": 0x26, "prefill": 3}), run("vy", "map_tt_i1_ebr", c=1, opt={"keys": 2, "cap": 128, "ops": 0x16, "prefill": 1}),
+     run("vy", "map_tt_i1_hp", c=1, opt={"m": 1, "keys": 5, "prefill": 31, "cap": 128, "ops": 0x27}, weight=2), run("vy", "map_st_s1_hp", c=1, opt={"m": 1, "keys": 5, "prefill": 31, "cap": 128, "ops": 0x27}, weight=2),
+     run("vy", "map_tn_i1_hp", c=1, opt={"m": 1, "keys": 4, "prefill": 7, "cap": 1, "ops": 0x7}, weight=2), run("vy", "map_tt_i1_stamp", c=1, opt={"m": 1, "keys": 2, "cap": 1, "ops": 0x7, "prefill": 1})]
+_c10_thorough = [run("vy", "map_" + t, c=0, opt={"T": 1, "m": 4, "keys": 5, "cap": 128, "prefill": 15, "ops": 0x3f}, weight=2) for t in _vy_modes if "stamp" not in t] + \
+    [run("vy", "map_" + t, c=0, opt={"T": 1, "m": 4, "keys": 6, "cap": 1, "prefill": 7, "ops": 0x33}, weight=1) for t in ["tt_i1_hp", "tn_i1_hp", "st_s1_hp", "sn_s1_hp", "tm_i1_hp", "sm_s1_hp"]] + \
+    [run("vy", "map_" + t, c=1, opt={"keys": 2, "cap": 1, "ops": 0x27}, weight=2) for t in _vy_modes] + \
+    [run("vy", "map_" + t, c=2, opt={"m": 1, "keys": 5, "prefill": 31, "cap": 128, "ops": 0x27}, weight=6) for t in ["tt_i1_hp", "st_s1_hp", "tm_i1_hp", "tn_i1_hp", "sm_s1_hp"]] + \
+    [run("vy", "map_" + t, c=1, opt={"m": 1, "T": 3, "keys": 4, "prefill": 7, "cap": 1, "ops": 0x7}, weight=4) for t in ["tt_i1_hp", "st_s1_hp", "tm_i1_hp"]] + \
+    [run("vy", "map_tt_i1_hp", c=1, mode="wmm", d=1, opt={"m": 1, "keys": 5, "prefill": 31, "cap": 128, "ops": 0x7}, weight=3)]
+PLAN["C10"] = {
+    "quick": _c10_quick, "thorough": _c10_thorough, "budget_s": {"quick": 170, "thorough": 1700},
+    "rule": "programs: T threads x m operations over subsets of {emplace, erase, try_get_value, find, get_or_emplace, extract} on 2-6 keys that share one bucket "
+            "(keys congruent mod 128 / constant hash) or two buckets; initial capacity 1 (every fourth key in a bucket forces grow) and 128 (extension items), "
+            "five key/value storage specialisations (trivial/non-trivial key x trivial / non-trivial / managed_ptr value); sequential runs: all sequences of depth 3-4 "
+            "over the full alphabet after a prefill that populates the extension list; final full iteration as snapshot; oracle: Wing-Gong linearizability against a "
+            "sequential map incl. value identity (a lock-free read may never return another key's value), heap shadow and race detector, progress monitor on try_get_value",
+    "assumptions": ["values are small integers (wrapped in non-trivial / managed objects as the mode requires)"],
+}
+LEVEL_TEXT["C10"] = ("all sequential operation sequences to depth 3-4 for 8-19 storage-mode x reclaimer configurations with populated extension lists and with repeated growth, and all "
+                     "interleavings with <= c preemptions (1 quick, 2 thorough) of enumerated writer/reader programs on keys sharing a bucket; every history checked against a sequential map")
+
+# ------------------------------------------------------------------------------------------------- C11
+TITLES["C11"] = "vyukov_hash_map iterators: exclusive traversal, erase(iterator), no lost locks"
+_c11_seq = ["it_tt_i1_hp", "it_tt_i2_hp", "it_st_s1_hp", "it_tm_i1_hp", "it_tn_i1_hp", "it_sm_s2_ebr", "it_st_s2_hp"]
+PLAN["C11"] = {
+    "quick": [run("vy", t, c=0, opt={"steps": 4, "keys": 5, "prefill": 31}, weight=0.5) for t in _c11_seq] +
+             [run("vy", "it_tt_i2_hp", c=0, opt={"steps": 3, "keys": 8, "prefill": 255}, weight=0.5),
+              run("vy", "it_tt_i1_hp", c=1, opt={"steps": 2, "keys": 5, "prefill": 31, "readers": 1, "m": 1}, weight=2),
+              run("vy", "it_st_s1_hp", c=1, opt={"steps": 2, "keys": 5, "prefill": 31, "readers": 1, "m": 1}, weight=2),
+              run("vy", "it_tt_i2_hp", c=1, opt={"steps": 2, "keys": 4, "prefill": 15, "updaters": 1, "m": 1}, weight=2),
+              run("vy", "it_tm_i1_hp", c=1, opt={"steps": 2, "keys": 4, "prefill": 15, "readers": 1, "m": 1}, weight=2)],
+    "thorough": [run("vy", t, c=0, opt={"steps": 5, "keys": 5, "prefill": 31}, weight=2) for t in _c11_seq] +
+                [run("vy", "it_tt_i2_hp", c=0, opt={"steps": 4, "keys": 8, "prefill": 255}, weight=2)] +
+                [run("vy", t, c=1, opt={"steps": 3, "keys": 5, "prefill": 31, "readers": 1, "m": 1}, weight=6) for t in ["it_tt_i1_hp", "it_st_s1_hp", "it_tm_i1_hp", "it_tn_i1_hp"]] +
+                [run("vy", t, c=2, opt={"steps": 2, "keys": 5, "prefill": 31, "readers": 1, "m": 1}, weight=6) for t in ["it_tt_i1_hp", "it_st_s1_hp"]] +
+                [run("vy", t, c=1, opt={"steps": 3, "keys": 4, "prefill": 15, "updaters": 1, "m": 1}, weight=4) for t in ["it_tt_i2_hp", "it_st_s2_hp", "it_sm_s2_ebr"]] +
+                [run("vy", "it_tt_i2_hp", c=1, opt={"steps": 2, "keys": 4, "prefill": 15, "updaters": 1, "readers": 1, "m": 1}, weight=4)],
+    "budget_s": {"quick": 150, "thorough": 1700},
+    "rule": "one iterator thread performs an enumerated sequence (2-5 steps) of {begin, ++, erase(iterator), reset, find(key) move-assigned onto the iterator, ordinary "
+            "emplace/erase} (programs that would wait for their own bucket lock are pruned as illegal), on 128-bucket maps whose keys share one or two buckets with populated "
+            "extension lists; concurrently 0-1 lock-free readers (try_get_value) and 0-1 writers on enumerated keys; afterwards every key is read, one key per bucket is "
+            "inserted and erased (a leaked bucket lock makes these spin: LIVELOCK verdict) and the map is iterated; oracle: Wing-Gong linearizability of the whole history "
+            "with iterator steps interpreted as map operations (yield = find, erase(iterator) = successful erase of exactly that key), full traversal yields every element once",
+    "assumptions": [],
+}
+LEVEL_TEXT["C11"] = ("all single-threaded iterator/operation sequences to depth 4-5 for seven storage modes with populated extension lists, and all interleavings with <= c preemptions of an "
+                     "iterating/erasing thread with a lock-free reader or a writer; reader results, traversal results and lock release checked on every execution")
+
+# ------------------------------------------------------------------------------------------------- C15
+TITLES["C15"] = "marked_ptr, concurrent_ptr and guard_ptr obey their smart-pointer algebra"
+_alg = ["hpd", "hed", "qsbr", "ebr", "nebr", "debra", "gebr_lazy", "gebr_thr", "stamp", "lfrc", "lfrc_tl"]
+PLAN["C15"] = {
+    "quick": [run("markedptr", "marked_ptr", c=0, plain_horizon=100000000000, wall=200, opt={"full": 14}, weight=2)] +
+             [run("markedptr", "concurrent_ptr_" + r, c=0, weight=0.2) for r in ["hp", "ebr", "lfrc"]] +
+             [run("guards", "alg_" + r, c=0, opt={"depth": 3}, weight=2 if r == "stamp" else 1) for r in _alg] +
+             [run("guards", "slots_hp_k2", c=0, opt={"depth": 3}), run("guards", "slots_he_k2", c=0, opt={"depth": 3})] +
+             [run("guards", "snap_" + r, c=2, weight=1) for r in ["hp", "hpd", "he", "qsbr", "ebr", "nebr", "debra", "lfrc"]] + [run("guards", "snap_stamp", c=1)],
+    "thorough": [run("markedptr", "marked_ptr", c=0, plain_horizon=100000000000, wall=1200, opt={"full": 24, "shards": 64}, weight=10),
+                 run("markedptr", "marked_ptr", c=0, plain_horizon=1000000000000, wall=2400, opt={"full": 32, "w": 32, "shards": 256}, weight=20)] +
+                [run("guards", "alg_" + r, c=0, opt={"depth": 4}, weight=4 if r == "stamp" else 2) for r in _alg] +
+                [run("guards", "alg_" + r, c=0, opt={"depth": 3, "guards": 3}, weight=2) for r in ["hpd", "ebr", "lfrc"]] +
+                [run("guards", "snap_" + r, c=3, opt={"replaces": 2, "acquires": 2}, weight=3) for r in ["hp", "he", "ebr", "qsbr", "lfrc"]] +
+                [run("guards", "snap_" + r, c=2, opt={"replaces": 3, "acquires": 3}, weight=3) for r in ["hp", "ebr", "lfrc", "stamp"]] +
+                [run("guards", "snap_" + r, c=2, mode="wmm", d=1, weight=2) for r in ["hp", "he", "ebr", "qsbr"]],
+    "budget_s": {"quick": 150, "thorough": 3000},
+    "rule": "marked_ptr: mark widths 0..32 x MaxUpperMarkBits {0,8,16} x 5 pointer patterns (null, lowest / highest / alternating canonical user address aligned as the width "
+            "requires): all 2^w mark values for w <= 14 (quick) / 24 and w = 32 (thorough), boundary families (0, all ones, walking one/zero, 2^k+-1) above; get/mark/bool/==/!= / "
+            "reset against the (pointer, mark) pair; concurrent_ptr store/load/CAS round trips; guard algebra: all sequences of depth 3-4 over {acquire, acquire_if_equal "
+            "(match / mismatch in mark or pointer), reset (twice), copy-assign and move-assign incl. self, swap, reclaim, copy/move-construct, construct from raw pointer} on 2-3 "
+            "guards and 2 cells against a shared-ownership reference model (which guard holds which node and mark, nodes alive while held); snapshot: a thread that keeps "
+            "replacing the cell vs a thread doing acquire / acquire_if_equal, linearizability against an atomic pointer cell",
+    "assumptions": ["pointer patterns are representative, not exhaustive (the pointer domain is 2^47)"],
+}
+LEVEL_TEXT["C15"] = ("exhaustive enumeration of mark values per width (all values up to the stated width bound, boundary families above) and of guard operation sequences to depth 3-4 for "
+                     "11 reclaimer configurations against reference models, plus all interleavings with <= c preemptions of an acquiring thread with a replacing thread")
+
+# ------------------------------------------------------------------------------------------------- C18
+TITLES["C18"] = "Hazard pointer/era slots: K available, exhaustion reported, slots reusable"
+PLAN["C18"] = {
+    "quick": [run("guards", "slots_hp_k1", c=0, opt={"depth": 3, "guards": 3}), run("guards", "slots_hp_k2", c=0, opt={"depth": 3, "guards": 3}, weight=2),
+              run("guards", "slots_hp_k3", c=0, opt={"depth": 3, "guards": 4, "fill": 2, "ops": 0x31b}, weight=2),
+              run("guards", "slots_hp_k5", c=0, opt={"depth": 3, "guards": 7, "fill": 4, "ops": 0x119}, weight=2),
+              run("guards", "slots_he_k1", c=0, opt={"depth": 3, "guards": 3}), run("guards", "slots_he_k2", c=0, opt={"depth": 3, "guards": 3}, weight=2),
+              run("guards", "slots_he_k3", c=0, opt={"depth": 3, "guards": 4, "fill": 2, "ops": 0x31b}, weight=2),
+              run("guards", "slots_he_k5", c=0, opt={"depth": 3, "guards": 7, "fill": 4, "ops": 0x119}, weight=2),
+              run("guards", "slots_hpd_k1", c=0, opt={"depth": 3, "guards": 3}), run("guards", "slots_hed_k1", c=0, opt={"depth": 3, "guards": 3}),
+              run("guards", "slots_hp_k1", c=0, opt={"depth": 2, "guards": 2, "gens": 2}), run("guards", "slots_he_k2", c=0, opt={"depth": 2, "guards": 3, "gens": 2})],
+    "thorough": [run("guards", "slots_hp_k1", c=0, opt={"depth": 4, "guards": 3}, weight=4), run("guards", "slots_hp_k2", c=0, opt={"depth": 4, "guards": 3}, weight=6),
+                 run("guards", "slots_hp_k3", c=0, opt={"depth": 4, "guards": 5, "fill": 2, "ops": 0x31b}, weight=6),
+                 run("guards", "slots_hp_k5", c=0, opt={"depth": 4, "guards": 7, "fill": 4, "ops": 0x119}, weight=6),
+                 run("guards", "slots_he_k1", c=0, opt={"depth": 4, "guards": 3}, weight=4), run("guards", "slots_he_k2", c=0, opt={"depth": 4, "guards": 3}, weight=6),
+                 run("guards", "slots_he_k3", c=0, opt={"depth": 4, "guards": 5, "fill": 2, "ops": 0x31b}, weight=6),
+                 run("guards", "slots_he_k5", c=0, opt={"depth": 4, "guards": 7, "fill": 4, "ops": 0x119}, weight=6),
+                 run("guards", "slots_hpd_k1", c=0, opt={"depth": 4, "guards": 3}, weight=4), run("guards", "slots_hed_k1", c=0, opt={"depth": 4, "guards": 3}, weight=4),
+                 run("guards", "slots_hp_k2", c=0, opt={"depth": 3, "guards": 3, "gens": 3}, weight=4), run("guards", "slots_he_k2", c=0, opt={"depth": 3, "guards": 3, "gens": 3}, weight=4)],
+    "budget_s": {"quick": 150, "thorough": 1700},
+    "rule": "one thread, all sequences of depth 3-4 over guard operations {acquire, acquire_if_equal, reset, copy-assign, move-assign, swap, reclaim, copy-construct, construct from "
+            "pointer} on K+1..K+2 guard variables (K in 1,2,3,5; for K>=3 the first guards are pre-filled and the alphabet reduced), static and dynamic strategies, hazard "
+            "pointers and hazard eras, optionally repeated in 2-3 successive threads that reuse the control block; reference model counts protecting guards: an operation that "
+            "needs no new slot must not throw, with hazard pointers one that needs more than K must throw bad_hazard_pointer_alloc (hazard eras may share an entry, so they may "
+            "or may not throw), the dynamic strategy never throws; after every step (also after an exception) every guard refers to its node, nodes are alive; afterwards K "
+            "guards can be held at once and repeated acquire/reset never exhausts the slots",
+    "assumptions": [],
+}
+LEVEL_TEXT["C18"] = ("exhaustive enumeration of guard operation sequences to depth 3-4 for K in {1,2,3,5}, hazard pointers and hazard eras, static and dynamic strategy, with thread exit and "
+                     "control-block reuse, against a slot-counting reference model")
